@@ -112,6 +112,9 @@ func (dg *DefaultGrouper) CalcPodGroupAnnotations(topOwner *unstructured.Unstruc
 	}
 
 	maps.Copy(pgAnnotations, topOwner.GetAnnotations())
+	// When the top owner is the pod itself it carries the pod-group-name annotation the grouper writes onto pods:
+	// that is bookkeeping of the grouper, not an annotation of the workload.
+	delete(pgAnnotations, commonconsts.PodGroupAnnotationForPod)
 
 	return pgAnnotations
 }
